@@ -65,12 +65,13 @@ const (
 	c11Ack10_40
 	c11Ack0_50
 	c11Probe // a datagram sent WITHOUT asking the pacer (quic-go: PTO probes and ACK-only packets bypass HasPacingBudget)
+	c11MTU   // path-MTU discovery raises the datagram size (quic-go calls SetMaxDatagramSize after the probe's ACK): +172 bytes, up to 1500
 	c11NActions
 )
 
 var c11ActionNames = [c11NActions]string{
 	"send1", "burst16", "drain", "pace16", "sleep", "sleep+1ns", "idle1s", "idle10s", "nextsec",
-	"ack(49,0)", "ack(50,0)", "ack(40,10)", "ack(39,11)", "ack(10,40)", "ack(0,50)", "probe",
+	"ack(49,0)", "ack(50,0)", "ack(40,10)", "ack(39,11)", "ack(10,40)", "ack(0,50)", "probe", "mtu+172",
 }
 
 var c11Batches = [c11NActions][2]int{
@@ -91,9 +92,10 @@ var (
 	c11AlphaSeq = []c11Action{c11Send1, c11Burst, c11Sleep, c11Sleep1, c11Idle1, c11Idle10, c11NextSec,
 		c11Ack49_0, c11Ack50_0, c11Ack40_10, c11Ack39_11, c11Ack10_40, c11Ack0_50}
 	// unpaced sends interleaved with paced ones (added after the seeded change C11-1 was missed)
-	c11AlphaProbe = []c11Action{c11Send1, c11Drain, c11Probe, c11Pace, c11Sleep, c11Idle1, c11Ack50_0, c11Ack40_10}
+	// (mtu+172 added after the seeded change C11-4: a window memoised across a datagram-size increase)
+	c11AlphaProbe = []c11Action{c11Send1, c11Drain, c11Probe, c11Pace, c11Sleep, c11Idle1, c11Ack50_0, c11Ack40_10, c11MTU}
 	c11AlphaDrain = []c11Action{c11Send1, c11Drain, c11Pace, c11Sleep, c11Sleep1, c11Idle1, c11Idle10, c11NextSec,
-		c11Ack49_0, c11Ack50_0, c11Ack40_10, c11Ack39_11, c11Ack10_40, c11Ack0_50}
+		c11Ack49_0, c11Ack50_0, c11Ack40_10, c11Ack39_11, c11Ack10_40, c11Ack0_50, c11MTU}
 )
 
 // ---------------------------------------------------------------------------------------------
@@ -168,6 +170,8 @@ type c11Snap struct {
 	lastGrpB int64
 	nHist    int
 	by       *c11Snap
+	size     congestion.ByteCount
+	bsSize   congestion.ByteCount
 }
 
 func c11CeilDiv(a, b uint64) uint64 { return (a + b - 1) / b }
@@ -194,9 +198,20 @@ func c11NewSim(g c11Grid) *c11Sim {
 	return s
 }
 
+// setSize: the reference constants that depend on the datagram size.
+func (s *c11Sim) setSize(n congestion.ByteCount) {
+	s.size = n
+	mb := int64(c11CeilDiv(s.bwMax*4, 1000)) // 4ms of bwMax
+	if p := 10 * int64(n); p > mb {
+		mb = p
+	}
+	s.maxBurst = mb
+}
+
 func (s *c11Sim) save() c11Snap {
 	sn := c11Snap{slots: s.bs.pktInfoSlots, ackRate: s.bs.ackRate, lastPr: s.bs.lastAckPrintTimestamp, pacer: *s.bs.pacer,
-		now: s.now, inflight: s.inflight, pn: s.pn, hasSent: s.hasSent, lastSend: s.lastSend, nGrp: len(s.grpT), nHist: len(s.hist)}
+		now: s.now, inflight: s.inflight, pn: s.pn, hasSent: s.hasSent, lastSend: s.lastSend, nGrp: len(s.grpT), nHist: len(s.hist),
+		size: s.size, bsSize: s.bs.maxDatagramSize}
 	if n := len(s.grpB); n > 0 {
 		sn.lastGrpB = s.grpB[n-1]
 	}
@@ -211,6 +226,10 @@ func (s *c11Sim) restore(sn *c11Snap) {
 	s.bs.pktInfoSlots, s.bs.ackRate, s.bs.lastAckPrintTimestamp = sn.slots, sn.ackRate, sn.lastPr
 	*s.bs.pacer = sn.pacer
 	s.now, s.inflight, s.pn, s.hasSent, s.lastSend = sn.now, sn.inflight, sn.pn, sn.hasSent, sn.lastSend
+	if s.size != sn.size {
+		s.setSize(sn.size)
+	}
+	s.bs.maxDatagramSize = sn.bsSize
 	s.grpT, s.grpB, s.hist = s.grpT[:sn.nGrp], s.grpB[:sn.nGrp], s.hist[:sn.nHist]
 	if sn.nGrp > 0 {
 		s.grpB[sn.nGrp-1] = sn.lastGrpB
@@ -376,6 +395,17 @@ func (s *c11Sim) step(a c11Action) (eff, disabled bool, v *c11Viol) {
 
 func (s *c11Sim) step1(a c11Action) (eff, disabled bool, v *c11Viol) {
 	switch a {
+	case c11MTU:
+		ns := s.size + 172
+		if ns > 1500 {
+			ns = 1500
+		}
+		if ns == s.size {
+			return false, false, nil
+		}
+		s.bs.SetMaxDatagramSize(ns)
+		s.setSize(ns)
+		return true, false, s.checkState()
 	case c11Send1, c11Burst, c11Drain:
 		limit := 1
 		if a == c11Burst {
